@@ -91,6 +91,7 @@ class FnContract:
         self.closures = []   # (old header, new header, clauses text)
         self.ghost = []      # text at body start
         self.ledgers = []    # (token, regex, proof text, after?)
+        self.scope_ends = [] # (regex of a guard binding, proof text placed where the binding's block ends)
         self.decreases = None
         self.attrs = []
 
@@ -187,6 +188,9 @@ def parse_contracts(path):
                 token, rest2 = rest.split("::", 1)
                 rx, proof = rest2.split("=>", 1)
                 cur.ledgers.append((token.strip(), rx.strip(), proof.strip(), tag == "ledger-after"))
+            elif tag == "scope-end":
+                rx, proof = rest.split("=>", 1)
+                cur.scope_ends.append((rx.strip(), proof.strip()))
             elif tag == "closure":
                 old, new = rest.split("=>", 1)
                 section = "closure"
@@ -668,6 +672,30 @@ class Gen:
                     body = body[:pos] + " proof { " + ptxt + " } " + body[pos:]
                 self.fidelity.append(dict(rule="ledger", file=s.path, line=body_line, fn=key, before=rx, after="%d statement(s) of this shape carry: %s" % (len(hits), proof),
                                           trusted="nothing (ghost bookkeeping)"))
+            # @scope-end REGEX => PROOF: where the block that contains a statement matching REGEX (a guard bound with `let`) ends -
+            # i.e. where Rust drops the guard - `proof { PROOF }` is inserted. Only statement blocks are handled (the block's
+            # last token must be `;` or `}`); a guard living to the end of the function needs no reset.
+            for rx, ptxt in ctr.scope_ends:
+                for h in reversed(list(re.finditer(rx, body))):
+                    mb_ = mask(body)
+                    d_, i_ = 0, h.start() - 1
+                    while i_ >= 0:
+                        if mb_[i_] in ")]}":
+                            d_ += 1
+                        elif mb_[i_] in "([{":
+                            if d_ == 0:
+                                break
+                            d_ -= 1
+                        i_ -= 1
+                    if i_ <= 0 or mb_[i_] != "{" or i_ == mb_.index("{"):
+                        continue        # function scope: nothing follows the drop
+                    cl_ = match_close(mb_, i_)
+                    tail_ = mb_[i_ + 1:cl_].rstrip()
+                    if not tail_ or tail_[-1] not in ";}":
+                        raise Undecided("%s: the block holding `%s` ends in an expression; cannot place its scope-end bookkeeping" % (key, h.group(0)[:40]))
+                    body = body[:cl_] + " proof { " + ptxt + " } " + body[cl_:]
+                self.fidelity.append(dict(rule="scope-end", file=s.path, line=body_line, fn=key, before=rx, after="at the end of the enclosing block: " + ptxt,
+                                          trusted="nothing (ghost bookkeeping; Rust drops a guard at the end of the block that binds it)"))
             for gtext in ctr.ghost:
                 ob = body.index("{")
                 body = body[:ob + 1] + "\n/*@PROOF*/\n" + gtext + "\n/*@ENDPROOF*/\n" + body[ob + 1:]
@@ -682,7 +710,7 @@ class Gen:
         # emit body line by line with origin tracking
         self._emit_body(body, s.path, body_line, key)
         self.functions.append(dict(fn=key, file=s.path, line=sig_line, first=fn_first, last=self.cur_line() - 1,
-                                   contracted=bool(ctr and (ctr.requires or ctr.ensures or ctr.proofs or ctr.ledgers or ctr.loops)),
+                                   contracted=bool(ctr and (ctr.requires or ctr.ensures or ctr.proofs or ctr.ledgers or ctr.loops or ctr.scope_ends)),
                                    contract_kinds=([k_ for k_ in ("requires", "ensures", "loops", "proofs", "ledgers") if ctr and getattr(ctr, k_)])))
 
     def _insert_proofs(self, key, ctr, body, path, body_line):
